@@ -256,6 +256,11 @@ def run(ctx):
                                (T.or_(bm, T.UNIT), ('L', items)), (T.or_(T.UNIT, bm), ('R', items)), (T.pair(T.option(bm), T.or_(T.NAT, bm)), (('Some', items), ('R', items))),
                                (T.option(T.pair(T.NAT, bm)), ('Some', (1, items)))):
                     judge_big_map(ctx, tt, vv)
+    # collections of 9, 10, 11 ... hundreds of elements, wide combs, deep nestings, long strings
+    for k, (label, t, v) in enumerate(G.large_values(rng, ctx.quick)):
+        if ctx.mine(k):
+            ctx.count('large_values')
+            judge(ctx, t, v)
     # values with the shapes real contracts use: recorded arguments and storage parts of the mainnet corpus
     from rv.gen import corpus as C
     for k, (label, texpr, t, v, src) in enumerate(C.typed_values()):
